@@ -22,7 +22,7 @@ import (
 // Documents (G-doc)
 
 var docKeys = []string{"a", "b", "c", "d", "", "é", "k-1", "a", "A", "B", "É", "a ", "in", "let", "null", "true", "not", "length"}
-var docStrings = []string{"", "a", "b", "ab", "é", "𝒳y", "10", "1e2", "x y", "'", "\"", "\\", "`", "100%", "%s%d", "a%%b", "<&>", "\u2028", "l'été", "'𝄞", "it's"}
+var docStrings = []string{"", "a", "b", "ab", "é", "𝒳y", "10", "1e2", "x y", "'", "\"", "\\", "`", "100%", "%s%d", "a%%b", "<&>", "\u2028", "l'été", "'𝄞", "it's", "a'b'c", "''"}
 var docNumbers = []float64{0, 1, -1, 2, 3, 10, 0.5, -2.5, 1e15, 7}
 
 // Text and numbers whose representation matters: code points at every UTF-8 length boundary,
